@@ -225,8 +225,9 @@ class Ctx:
         """Model and implementation disagree on `case` (the caller has already asked the
         implementation-side oracle about it and reported a violation if that failed)."""
         lst = self.notes.setdefault("correspondence_broken", [])
-        if len(lst) < 20:
-            lst.append({"what": what, "case": case})
+        self.notes["correspondence_broken_count"] = self.notes.get("correspondence_broken_count", 0) + 1
+        if len(lst) < 5:
+            lst.append({"what": what[:300], "case": json.dumps(case, default=str)[:1500]})
 
     def obligation(self, name, ok, detail=""):
         self.obligations.append((name, bool(ok), detail))
